@@ -44,6 +44,15 @@ def laws(ctx, n):
                 ctx.expect(sk == bytes(c), "Curve25519 derivation is RFC 7748 clamping of the seed")
             sks.append(sk)
     x25519_arbitrary_shares(ctx, 2 * n)
+    # decoding is the inverse of encoding and of nothing else: other spellings of valid points (compact / hybrid /
+    # uncompressed SEC1 tags, non-reduced coordinates, trailing bytes) and invalid encodings are refused - or, where the
+    # group defines several byte strings for one key (Curve25519 ignores nothing here), re-encode to themselves
+    for label, b in invalid_elements(L.ke, rnd) + alternative_point_encodings(L.ke, rnd, 2):
+        r = ctx.call("ke_pk", b)
+        ctx.expect(r.status in ("OK", "ERR") and (not r.ok or r.b(0) == b), "an accepted public-key encoding re-encodes to itself (%s)" % label)
+    for label, b in invalid_scalars(L.ke, rnd):
+        r = ctx.call("ke_sk", b)
+        ctx.expect(r.status in ("OK", "ERR") and (not r.ok or r.b(0) == b), "an accepted private-key encoding re-encodes to itself (%s)" % label)
     pks = []
     for sk in sks:
         r = ctx.call("ke_sk", sk)
